@@ -307,3 +307,42 @@ func ZZH_C18_pipeline() {
 		zz.Assert("C19.pipeline.committed-tx-gone", mp.GetTransaction(types.NewHashByStr(s.hash)) == nil)
 	}
 }
+
+// ZZH_C18_seqno_reset: batch sequence numbers increase by one between explicit resets, and an
+// explicit reset is obeyed whatever its direction. A pool with 2..4 ready transactions has generated
+// G batches (heights 2..G+1) of which the first C were reported committed; then the orderer resets the
+// sequence number to any height from 1 to G+2 (a re-elected leader resets to its last executed
+// block, which is below the pool's own count when batches were lost with the leadership; a follower
+// reports every executed height). The next batch generated carries exactly the reset value plus one,
+// and the one after it plus two.
+func ZZH_C18_seqno_reset() {
+	zz.ConcreteClock(1000)
+	batchSize := uint64(1)
+	m := &zzPoolModel{committed: append([]uint64{}, zzBase...), nextBatch: append([]uint64{}, zzBase...), lastHeight: 1}
+	mp := zzNewPool(batchSize, m)
+	P := 2 + zz.Choice("inPool", 3)
+	for i := 0; i < P; i++ {
+		tx := &pb.BxhTransaction{From: zzAccts[0], To: zzAccts[1], Nonce: zzBase[0] + uint64(i), Timestamp: 1, TransactionHash: types.NewHashByStr(zzHashes[i])}
+		m.subs = append(m.subs, &zzSubmitted{acct: 0, nonce: tx.Nonce, hash: zzHashes[i], tx: tx, admitted: true})
+		zzCheckBatch(m, mp.ProcessTransactions([]pb.Transaction{tx}, false, true), batchSize)
+	}
+	G := zz.Choice("generated", P-1) // at least two transactions stay unbatched
+	for i := 0; i < G; i++ {
+		zzCheckBatch(m, mp.GenerateBlock(), batchSize)
+	}
+	for c := zz.Choice("committed", G+1); c > 0; c-- {
+		zzCommitAt(mp, m, 0)
+	}
+	to := uint64(1 + zz.Choice("resetTo", G+2))
+	mp.SetBatchSeqNo(to)
+	zz.Cover("C18.reset.downwards", to < m.lastHeight)
+	zz.Cover("C18.reset.upwards", to > m.lastHeight)
+	for j := uint64(1); j <= 2; j++ {
+		b := mp.GenerateBlock()
+		zz.Assert("C18.reset.batch-generated", b != nil)
+		if b == nil {
+			return
+		}
+		zz.Assert("C18.reset.next-batch-follows-the-reset-value", b.Height == to+j)
+	}
+}
